@@ -936,6 +936,8 @@ def _analyse_own(chk):
 
 def analyse(chk):
     _analyse_own(chk)
+    chk.guard(lambda c_: core.include_findings(c_, 'C09', files=['ciderpress/pyscf/numint.py'], rules=['reinit'],
+                                               why='a generator built for one spin mode and reused for the other carries the wrong nspin factors'))
     chk.guard(lambda c_: core.include_findings(c_, 'C11', files=['ciderpress/lib/mod_cider/model_utils.c'], rules=['grad-pairing'],
                                                why='the spin-channel gradients of the C kernels must differentiate the factor with respect to their own channel'))
     chk.guard(lambda c_: core.include_findings(c_, 'C09', files=['ciderpress/dft/plans.py', 'ciderpress/dft/lcao_nldf_generator.py', 'ciderpress/dft/lcao_interpolation.py'], rules=['cache-alias'],
